@@ -131,6 +131,9 @@ for _variant, _raises, _ens in (
         descr=f"dictionary variant: {_variant}",
     ))
 
+from contracts import c15_uri  # noqa: E402
+
+CONTRACTS += c15_uri.CONTRACTS
 BOUNDED = [Bounded("c15", "harness/c15.py", descr="round trips through uri/json/dict over hostile labels and class defaults; corrupted sources", timeout=900)]
 
 MUTANTS = [
@@ -141,3 +144,4 @@ MUTANTS = [
     ("_adapt_dict_kwds accepts a newer version", T, "        if not ver or ver < cls.min_json_version or ver > cls.json_version:", "        if not ver or ver < cls.min_json_version:", "refute"),
     ("_adapt_dict_kwds accepts a missing key", T, "        elif \"key\" not in kwds:\n            raise cls._dict_parse_error(\"missing 'enckey' / 'key'\")", "        elif \"key\" not in kwds:\n            pass", "refute"),
 ]
+MUTANTS += c15_uri.MUTANTS
